@@ -62,6 +62,29 @@ def iri_text(iri, style="raw"):
     return "<%s>" % "".join(out)
 
 
+BASEF = EX + "dir/doc"  # a file-like base: its last path segment is not part of what a relative reference is resolved against
+
+
+def rel_ref(iri):
+    """A relative reference (RFC 3986, 4.2 / 5.2) that resolves to iri against BASEF, or None."""
+    if not iri.startswith(EX):
+        return None
+    if iri == BASEF:
+        return ""
+    if iri.startswith(BASEF + "#") or iri.startswith(BASEF + "?"):
+        return iri[len(BASEF):]
+    if "/./" in iri or "/../" in iri or iri.endswith("/.") or iri.endswith("/.."):
+        return None  # dot segments would be removed on resolution
+    if iri.startswith(EX + "dir/"):
+        rest = iri[len(EX + "dir/"):]
+        if rest == "":
+            return "./"
+        if ":" in re.split("[/?#]", rest, maxsplit=1)[0] or rest[0] in "?#/":
+            return "./" + rest
+        return rest
+    return "../" + iri[len(EX):]
+
+
 # ---------------------------------------------------------------------------------------------
 # N-Triples / N-Quads
 
@@ -125,7 +148,7 @@ def write_nt(rows, flags=frozenset(), quads=False):
 TTL_FLAGS = ["single-quote", "long-quote", "long-single-quote", "uchar", "raw", "prefix", "sparql-prefix", "empty-prefix", "base", "sparql-base",
              "relative", "predicate-list", "object-list", "anon", "collection", "numeric", "a", "comments", "tight", "newlines", "bnode-labels",
              "lang-case", "pn-local-escape", "semicolons", "nested-anon", "odd-prefix", "redefine", "dot-relative", "keyword-case", "no-final-eol", "crlf",
-             "trig-graph-keyword", "trig-bare-default", "trig-no-final-dot", "trig-split-graph"]
+             "file-base", "trig-graph-keyword", "trig-bare-default", "trig-no-final-dot", "trig-split-graph"]
 
 PN_LOCAL_OK = re.compile(r"^[A-Za-z_][A-Za-z0-9_\-]*$")
 PN_LOCAL_ESC = set("_~.-!$&'()*+,;=/?#@%")
@@ -154,6 +177,8 @@ class TurtleWriter:
         if "odd-prefix" in flags and self.prefix != "":
             self.prefix = "e.x-1\u00b7y"  # PN_PREFIX ::= PN_CHARS_BASE ((PN_CHARS | '.')* PN_CHARS)?
         self.base = EX if ("base" in flags or "sparql-base" in flags or "relative" in flags or "dot-relative" in flags) else None
+        if "file-base" in flags:
+            self.base = BASEF
 
     def iri(self, iri, predicate=False):
         if predicate and "a" in self.flags and iri == RDF + "type":
@@ -165,6 +190,9 @@ class TurtleWriter:
             if "pn-local-escape" in self.flags and local and all(c.isalnum() or c in PN_LOCAL_ESC for c in local) and not local[0] in "-.":
                 esc = "".join(("\\" + c) if (c in PN_LOCAL_ESC and c != "_") else c for c in local)
                 return "%s:%s" % (self.prefix, esc)
+        if self.base == BASEF:
+            r = rel_ref(iri)
+            return iri_text(iri if r is None else r)
         if self.base and iri.startswith(self.base) and ":" not in iri[len(self.base):].split("/")[0].split("#")[0].split("?")[0]:
             rel = iri[len(self.base):]
             if "dot-relative" in self.flags and rel and rel[0] not in "#?/" and not rel.startswith("."):
@@ -200,7 +228,7 @@ class TurtleWriter:
         out = []
         kc = "keyword-case" in self.flags
         if self.base:
-            if "redefine" in self.flags:  # a later @base replaces an earlier one, and may itself be relative to it
+            if "redefine" in self.flags and self.base == EX:  # a later @base replaces an earlier one, and may itself be relative to it
                 out.append("@base <http://ex.org/sub/dir/> .")
                 out.append(("bAsE <../../>" if kc else "BASE <../../>") if "sparql-base" in self.flags else "@base <../../> .")
             else:
@@ -414,7 +442,7 @@ def write_trig(rows, flags=frozenset()):
 
 XML_FLAGS = ["nodeid-all", "nested", "property-attributes", "typed-node", "parse-resource", "parse-collection", "lang-inherit", "char-refs", "cdata",
              "default-ns", "xml-base", "rdf-id", "single-description", "rdf-li", "entity-decl", "no-xml-decl", "xml-comments", "indent", "no-rdf-root",
-             "single-quote-decls"]
+             "single-quote-decls", "xml-file-base"]
 
 
 def xml_escape(s, flags, attr=False):
@@ -475,6 +503,8 @@ def write_rdfxml(rows, flags=frozenset()):
         return "%s:%s" % (ns[n], local)
 
     base = EX if ("xml-base" in flags or "rdf-id" in flags) else None
+    if "xml-file-base" in flags and base is None:
+        base = BASEF
 
     def about(k):
         if k[0] == "B":
@@ -482,6 +512,8 @@ def write_rdfxml(rows, flags=frozenset()):
         iri = k[1]
         if "rdf-id" in flags and base and iri.startswith(base + "#") and re.match(r"^[A-Za-z_][A-Za-z0-9_.\-]*$", iri[len(base) + 1:]):
             return 'rdf:ID="%s"' % iri[len(base) + 1:]
+        if base == BASEF and rel_ref(iri) is not None:
+            return 'rdf:about="%s"' % xml_escape(rel_ref(iri), flags, True)
         if "xml-base" in flags and iri.startswith(base) and ":" not in iri[len(base):].split("/")[0].split("#")[0].split("?")[0]:
             return 'rdf:about="%s"' % xml_escape(iri[len(base):], flags, True)
         return 'rdf:about="%s"' % xml_escape(iri, flags, True)
@@ -490,6 +522,8 @@ def write_rdfxml(rows, flags=frozenset()):
         if k[0] == "B":
             return 'rdf:nodeID="%s"' % k[1]
         iri = k[1]
+        if base == BASEF and rel_ref(iri) is not None:
+            return 'rdf:resource="%s"' % xml_escape(rel_ref(iri), flags, True)
         if "xml-base" in flags and iri.startswith(base) and ":" not in iri[len(base):].split("/")[0].split("#")[0].split("?")[0]:
             return 'rdf:resource="%s"' % xml_escape(iri[len(base):], flags, True)
         return 'rdf:resource="%s"' % xml_escape(iri, flags, True)
@@ -665,7 +699,7 @@ def write_rdfxml(rows, flags=frozenset()):
 # JSON-LD
 
 JSONLD_FLAGS = ["context-prefix", "vocab", "base", "type-coercion", "language-default", "list", "nested", "graph-wrapper", "native", "type-keyword", "set-array",
-                "alias", "context-array", "null-noise", "unmapped-keys", "reverse", "value-objects", "container-list", "datatype-coercion", "anonymous"]
+                "alias", "context-array", "null-noise", "unmapped-keys", "reverse", "value-objects", "container-list", "datatype-coercion", "anonymous", "file-base"]
 ALIASES = {"@id": "id", "@type": "type", "@value": "value", "@language": "lang", "@graph": "graph", "@list": "list", "@reverse": "rev"}
 
 
@@ -677,6 +711,8 @@ def write_jsonld(rows, flags=frozenset(), dataset=False):
         ctx["@vocab"] = EX
     if "base" in flags:
         ctx["@base"] = EX
+    if "file-base" in flags and "base" not in flags:
+        ctx["@base"] = BASEF
     if "language-default" in flags:
         ctx["@language"] = "en"
     coerced = {}
@@ -693,6 +729,8 @@ def write_jsonld(rows, flags=frozenset(), dataset=False):
         if k[0] == "B":
             return "_:" + k[1]
         iri = k[1]
+        if ctx.get("@base") == BASEF and rel_ref(iri) is not None:
+            return rel_ref(iri)
         if "base" in flags and iri.startswith(EX) and iri != EX and ":" not in iri[len(EX):]:
             return iri[len(EX):]
         if "context-prefix" in flags:
